@@ -51,6 +51,13 @@ CLAIMS["C08"] = (
     "DESIGN.md §2 C08",
 )
 
+CLAIMS["C12"] = (
+    "structural dataflow rules (Bernoulli idiom, masked stores), finite truth-table evaluation of the {0,1}/{-1,+1} maps, may-alias/effect analysis",
+    "Binary symmetric / erasure / Z channels: every flip/erase indicator is `U < p` with U from rand/rand_like and p the configured, validated probability (strictness and direction checked, so p = 0 is the identity and p = 1 the extreme); the BSC output expression has the XOR truth table over {0,1}^2; Z-channel stores are masked by x == 1 and write where(event, 0, old); BEC stores only the erasure symbol under the erase mask into a clone; the bipolar conversions map -1/+1 to 0/1 and back under one flag; an alias/effect analysis shows no write reaches storage shared with the input. Decides the support/transition structure for every input; rates and independence are statistics and are not decided.",
+    "Trusted: torch.rand* samples lie in [0,1); clone()/arithmetic allocate, float()/view/indexing may alias; closed forms listed in props/c12.py.",
+    "DESIGN.md §2 C12",
+)
+
 NOT_APPLICABLE = {
     "C09": "conjunction at run time of C02/C05/C06/C10/C11/C15 over component pairings and adversarial channels; its structural preconditions (stage order, LLR polarity, label agreement, block framing) are decided under C17, C15, C05, C20 - no additional clause is visible in the shape of the code (DESIGN.md §2 C09)",
 }
